@@ -209,7 +209,7 @@ def suite_solve(ctx, case):
     q.sys.domain.MatrixArray_to_real(q.totalCorr)
     sc = max(1.0, float(np.max(np.abs(q.totalCorr.data))), float(np.max(np.abs(q.directCorr.data))))
     same = (p.totalCorr.space == Space.Real and p.directCorr.space == Space.Fourier and
-            bool(np.all(np.abs(p.totalCorr.data - q.totalCorr.data) <= 1e-9 * sc)) and bool(np.all(np.abs(p.directCorr.data - q.directCorr.data) <= 1e-9 * sc)))
+            bool(np.all(np.abs(p.totalCorr.data - q.totalCorr.data) <= 1e-12 * sc)) and bool(np.all(np.abs(p.directCorr.data - q.directCorr.data) <= 1e-12 * sc)))          # one and the same evaluation, repeated on a fresh object: equal to rounding, not to solver tolerance
     ctx.pred('solve', case, same, 'after solve(method=%s) the stored totalCorr/directCorr are not those of cost(result.x): max diff h %.3g c %.3g' %
              (case['method'], float(np.max(np.abs(p.totalCorr.data - q.totalCorr.data))), float(np.max(np.abs(p.directCorr.data - q.directCorr.data)))), key='C01:solve-leaves-root')
     # model: the state after solve is afterSolve(result.x) (theorem solve_leaves_returned_root)
